@@ -84,6 +84,7 @@ structure TaskS where
   placement : Option PlacementS := none
   pool : Option Nat := none        -- `_worker_pool_id`
   cancelTime : Option Int := none
+  ts : Int := 0                    -- `timestamp` (tasks of one graph may differ: X@t -> X@t+1 pipelines)
   deriving Repr
 
 /-- Exceptions of the task / task-graph / simulator layer. -/
